@@ -115,11 +115,11 @@ def block_event(n, shifted, radius_q, margin, lazy=False, has_cutoff=False, cuto
     return ev
 
 
-def com_event(n, shifted, units, lazy, rng, reuse=False):
+def com_event(n, shifted, units, lazy, rng, reuse=False, dtype="float32"):
     import abtem
     nx, ny = n
     ev = {"k": "com", "n": [nx, ny], "shifted": shifted, "units": units, "lazy": lazy, "raised": False, "com": [[], []], "cross_zero": True, "linear_ppb": 0,
-          "reuse": bool(reuse)}
+          "reuse": bool(reuse), "dtype": dtype}
     try:
         from abtem.core.energy import energy2wavelength
         from abtem.core.axes import ScanAxis
@@ -132,7 +132,12 @@ def com_event(n, shifted, units, lazy, rng, reuse=False):
             k[nx + b, 0, b] = 1.0
         wts = np.random.default_rng(rng.randrange(1 << 30)).random((nx, ny)).astype(np.float32)
         wts /= wts.sum()
+        if dtype != "float32":
+            wts = np.rint(wts * 5000.0)                    # counts (the centre of mass does not depend on the total)
+            k = k * 7
         k[-1] = wts
+        k = k.astype(dtype)
+        wts = wts / wts.sum()
         arr = np.fft.fftshift(k, axes=(-2, -1)) if shifted else k
         if lazy:
             import dask.array as da
